@@ -102,6 +102,12 @@ def roll_mi(mi, shift):
     return geom.MultiImage({t: jnp.roll(v, tuple(shift), axis=tuple(range(nl, nl + D))) for t, v in mi.data.items()}, D, mi.is_torus)
 
 
+def abs_mi(x):
+    import jax.numpy as jnp
+
+    return x.__class__({t: jnp.abs(v) for t, v in x.items()}, x.D, x.is_torus)
+
+
 def trace_scale(*mis):
     s = 0.0
     for m in mis:
@@ -259,8 +265,10 @@ def near_tie(x_block, D, patch_len, n_lead=1, rel=1e-3):
 
 
 # ---- ConvContract configurations (C06 / C11) -------------------------------------------------
-def gen_layer_cfg(rng, D, equivariant_domain=True, allow_stride=False, group="B", equal_channels=False):
-    """A random ConvContract configuration (JSON-able) inside the documented domain."""
+def gen_layer_cfg(rng, D, equivariant_domain=True, allow_stride=False, group="B", equal_channels=False, stratum=None):
+    """A random ConvContract configuration (JSON-able) inside the documented domain. `stratum` (an integer, normally the
+    case index) fixes the boundary-flag kind and the padding kind by a covering schedule, so that every (flags x padding)
+    cell is visited every 24 cases whatever the random stream does (a generator change must not silently empty a cell)."""
     from .ref import conv as rconv
 
     for _ in range(100):
@@ -291,6 +299,9 @@ def gen_layer_cfg(rng, D, equivariant_domain=True, allow_stride=False, group="B"
             lhs = [2] * D
         pads = ["VALID", "explicit"] if even else ([None, "TORUS", "SAME", "VALID", "explicit", "explicit"] if lhs is not None else [None, "TORUS", "SAME", "VALID", "explicit", None, "TORUS", "SAME"])
         pk = pads[int(rng.integers(len(pads)))]
+        if stratum is not None and not even:
+            want_pk = [None, "TORUS", "SAME", "VALID", "explicit", None, "TORUS", None][(stratum // 3) % 8]
+            pk = want_pk if want_pk in pads else pk
         padding = pk
         if pk == "explicit":
             q = int(rng.integers(0, 3)) if lhs is None else int(rng.integers(1, 3))
@@ -305,6 +316,12 @@ def gen_layer_cfg(rng, D, equivariant_domain=True, allow_stride=False, group="B"
             stride = int(rng.integers(1, 3)) if rng.integers(0, 2) else [int(v) for v in rng.integers(1, 3, size=D)]
         tor_kind = ["all", "none", "mixed"][int(rng.integers(3))]
         torus = [True] * D if tor_kind == "all" else ([False] * D if tor_kind == "none" else [bool(v) for v in rng.integers(0, 2, size=D)])
+        if stratum is not None:
+            tor_kind = ["all", "none", "mixed"][stratum % 3]
+            if tor_kind == "mixed":  # genuinely mixed: at least one toroidal and one non-toroidal axis
+                torus = [bool(v) for v in rng.permutation([True, False] + [bool(rng.integers(0, 2)) for _ in range(D - 2)])]
+            else:
+                torus = [tor_kind == "all"] * D
         hi = 6 if D == 2 else 4
         sp = [int(v) for v in rng.integers(3 if not even else 2, hi + 1, size=D)]
         if long_reach:
